@@ -41,14 +41,15 @@ Trim(cs) == TrimEnd(TrimStart(cs))
 \* U+1F600).  Unicode's default case conversion, which is what the implementation's standard library applies.
 UpperCP(c) == IF c >= 97 /\ c <= 122 THEN <<c - 32>>
               ELSE IF c >= 224 /\ c <= 254 /\ c # 247 THEN <<c - 32>>
-              ELSE IF c = 223 THEN <<83, 83>> ELSE IF c = 255 THEN <<376>> ELSE IF c = 181 THEN <<924>> ELSE <<c>>
+              ELSE IF c = 223 THEN <<83, 83>> ELSE IF c = 255 THEN <<376>> ELSE IF c = 181 \/ c = 956 THEN <<924>> ELSE <<c>>
 LowerCP(c) == IF c >= 65 /\ c <= 90 THEN <<c + 32>>
-              ELSE IF c >= 192 /\ c <= 222 /\ c # 215 THEN <<c + 32>> ELSE <<c>>
+              ELSE IF c >= 192 /\ c <= 222 /\ c # 215 THEN <<c + 32>>
+              ELSE IF c = 376 THEN <<255>> ELSE IF c = 924 THEN <<956>> ELSE <<c>>    \* the images of 255 and 181 under UpperCP
 RECURSIVE FlatMap(_, _)
 FlatMap(Op(_), cs) == IF cs = <<>> THEN <<>> ELSE Op(cs[1]) \o FlatMap(Op, Tail(cs))
 Upper(cs) == FlatMap(UpperCP, cs)
 Lower(cs) == FlatMap(LowerCP, cs)
-CaseModelled(c) == c < 256 \/ c \in {8203, 12288, 20013, 128512}
+CaseModelled(c) == c < 256 \/ c \in {376, 924, 956, 8203, 12288, 20013, 128512}
 
 IsSub(needle, hay) ==
   \E i \in 0..(Len(hay) - Len(needle)) : SubSeq(hay, i + 1, i + Len(needle)) = needle
